@@ -1,5 +1,6 @@
 """Engine-D checks: C08 (uniform proposals, calibrated volumes) and C14 (equal-weight posterior)."""
 import collections
+import os
 import json
 import math
 import pickle
@@ -63,6 +64,11 @@ def union_specs(tier):
             dict(kind='nautilus-outer', family='two', d=2, lattice=64),
             dict(kind='nautilus-outer', family='wrapped', d=2, lattice=64),
         ]
+    # unions whose lowest-density member was trimmed away after sampling (stale per-member caches)
+    specs.append(dict(family='three', d=2, n=60, member='Ellipsoid', unit=True, enlarge=1.6, splits=3,
+                      lattice=40, trim=1e-9))
+    specs.append(dict(family='blob', d=2, n=80, member='UnitCubeEllipsoidMixture', unit=True,
+                      enlarge=1.8, splits=4, lattice=40, trim=1e-9))
     # a union with >= 11 members after a checkpoint round trip (two-digit member indices)
     specs.append(dict(family='banana', d=2, n=200, member='Ellipsoid', unit=True, enlarge=1.3,
                       splits=14, lattice=40 if tier == 'quick' else 64, roundtrip=True,
@@ -91,6 +97,12 @@ def build_union(sp):
                       unit=sp['unit'], bound_class=cls, rng=np.random.default_rng(11 + sp['seed']))
     for _ in range(sp['splits']):
         u.split()
+    if sp.get('trim'):
+        # sample first (fills caches), then drop the lowest-density member; a union that cannot be
+        # trimmed is not what this specification is about
+        u.sample(10)
+        if not u.trim(sp['trim']):
+            raise Inconclusive('trim({}) refused for {}'.format(sp['trim'], sp))
     if len(u.bounds) < sp.get('min_members', 1):
         raise Inconclusive('union has only {} members, {} wanted'.format(len(u.bounds),
                                                                         sp['min_members']))
@@ -193,9 +205,18 @@ def _c08_union_job(sp):
                   else np.zeros((0, d)) for mi in range(nb)]
         for sh in ('id', 'rev'):
             for t in thresholds:
-                rec = E.scripted_refill(u, assign, t, sh)
+                try:
+                    with core.time_limit(120):
+                        rec = E.scripted_refill(u, assign, t, sh)
+                except (core.Timeout, ValueError, IndexError, TypeError, AttributeError) as e:
+                    if isinstance(e, Inconclusive):
+                        raise
+                    V('sample-raises:' + type(e).__name__, 'Union.sample raised/hung under scripted '
+                      'answers: {}: {}'.format(type(e).__name__, str(e)[:200]))
+                    continue
                 n_exec += 1
-                if not np.allclose(rec['p'], p_expect, rtol=1e-9, atol=1e-12):
+                if np.shape(rec['p']) != np.shape(p_expect) or not np.allclose(
+                        rec['p'], p_expect, rtol=1e-9, atol=1e-12):
                     V('multinomial-weights', 'multinomial p = {} but member volumes give {}'.format(
                         np.round(rec['p'], 6).tolist(), np.round(p_expect, 6).tolist()))
                 if rec['n'] != 1000 or rec['n_sample'] != 1000:
@@ -492,11 +513,16 @@ BOOSTS = (0.3, 1.0, 2.5, 10.0)
 NTHR = 64
 
 
-def sampler_states(scn, every):
-    """pickles of the sampler along the default path (file-less)"""
+def sampler_states(scn, every, resumed=False):
+    """pickles of the sampler along the default path; resumed=True: of a NEW sampler object resumed
+    from the checkpoint at those points (what a user gets who reopens a run to draw posteriors)"""
+    import shutil
+    seed = scn['seed']
     scn = scen.Scenario(scn.name, **{k: v for k, v in scn.items() if k not in ('name', 'seed')})
-    scn['file'] = False
-    s = scn.build()
+    scn['seed'] = seed
+    root = core.scratch_root() if resumed else None
+    path = os.path.join(root, 'ck' + scn['ext']) if resumed else None
+    s = scn.build(filepath=path)
     A = scn.run_args()
     out = []
     k = 0
@@ -507,11 +533,18 @@ def sampler_states(scn, every):
             done = s.run(**A, n_like_max=s.n_like + 1)
             k += 1
             if k % every == 0 or done:
-                out.append((k, pickle.dumps(s)))
+                if resumed:
+                    r = scn.build(filepath=path, resume=True)
+                    r.filepath = None
+                    out.append((k, pickle.dumps(r)))
+                else:
+                    out.append((k, pickle.dumps(s)))
             if done:
                 break
     finally:
         scen.LOG['on'] = on
+        if root:
+            shutil.rmtree(root, ignore_errors=True)
     return out
 
 
@@ -525,7 +558,7 @@ def _rows(post, has_blobs):
     return pts, np.asarray(post[1]), np.asarray(post[2]), (np.asarray(post[3]) if has_blobs else None)
 
 
-def _c14_job(scn_dict, every, toggle):
+def _c14_job(scn_dict, every, toggle, resumed=False):
     d = dict(scn_dict)
     name = d.pop('name')
     seed = d.pop('seed')
@@ -538,9 +571,10 @@ def _c14_job(scn_dict, every, toggle):
 
     def V(sig, msg, k):
         viol.setdefault(sig, Violation('C14', sig, msg, dict(kind='c14', scenario=dict(scn),
-                                                             depth=k, every=every, toggle=toggle)))
+                                                             depth=k, every=every, toggle=toggle,
+                                                             resumed=resumed)))
 
-    for k, pk in sampler_states(scn, every):
+    for k, pk in sampler_states(scn, every, resumed):
         s = pickle.loads(pk)
         if toggle and s.explored:
             s.discard_exploration = not bool(s.discard_exploration)
@@ -573,6 +607,13 @@ def _c14_job(scn_dict, every, toggle):
                     with np.errstate(all='ignore'):
                         res = s.posterior(equal_weight=True, equal_weight_boost=boost,
                                           return_blobs=has_blobs)
+                except Inconclusive:
+                    raise
+                except Exception as e:
+                    V('raises:' + type(e).__name__, 'posterior(equal_weight=True, equal_weight_boost={}) '
+                      'raised {}: {}{}'.format(boost, type(e).__name__, str(e)[:200],
+                                               ' (sampler resumed from file)' if resumed else ''), k)
+                    break
                 finally:
                     s.rng = real
                 n_exec += 1
@@ -649,6 +690,7 @@ def run_C14(tier):
     for s in scenarios.get(names):
         jobs.append((dict(s), every, False))
         jobs.append((dict(s), every, True))
+        jobs.append((dict(s), every * 2, False, True))      # states of a sampler resumed from file
     res = _timeouts('C14', core.pmap(_c14_job, jobs))
     violations = [v for r in res for v in r['violations']]
     cov = dict(
@@ -657,7 +699,8 @@ def run_C14(tier):
         exhaustive=True,
         rule='weight vectors of real sampler states along the default path of each scenario (every '
              '{} batches, both discard views) x boosts {} x ALL {} rounding thresholds (k+1/2)/{} '
-             'scripted as the answer of sampler.rng.random; distinct non-trivial case = (weighted '
+             'scripted as the answer of sampler.rng.random; also on samplers RESUMED from the checkpoint '
+             'at those points; distinct non-trivial case = (weighted '
              'row, boost)'.format(every, list(BOOSTS), NTHR, NTHR),
         samples=[r['sample'] for r in res if r['sample']][:5],
         assumptions=['rows whose relative weight x boost lies within 1e-9 of an integer, or whose '
@@ -677,7 +720,7 @@ def replay(prop, path):
         rep = json.load(f)
     r = rep['replay']
     if prop == 'C14':
-        out = _c14_job(r['scenario'], r['every'], r['toggle'])
+        out = _c14_job(r['scenario'], r['every'], r['toggle'], r.get('resumed', False))
     elif r['kind'] == 'union':
         out = _c08_union_job(r['spec'])
     elif r['kind'] == 'ellmap':
